@@ -12,7 +12,6 @@ use tokio::io::{AsyncReadExt, AsyncWriteExt};
 use vhc::*;
 
 pub const E_CANCELLED: u32 = 100;
-pub const E_INTERRUPTED: u32 = 6;
 
 #[derive(Clone, Debug)]
 pub enum Op { Write(Vec<u8>), Cancel(Vec<u8>, usize) }
@@ -311,13 +310,15 @@ fn boundary_cuts(r: &mut Rng, len: usize, cap: usize, k: usize) -> Vec<usize> {
     cuts
 }
 
-fn gen_writer(r: &mut Rng, big: bool) -> (WCase, &'static str) {
+fn gen_writer(r: &mut Rng, size: u8) -> (WCase, &'static str) {
     let asyn = r.coin();
     let ctx = *r.pick(&[1u8, 3, 5, 127, 255, 0, 2]);
-    let (max, bucket): (u32, &'static str) = if big {
-        (*r.pick(&[1018u32, 1018, 1019, 1020]), "writer-min-pdu")
-    } else {
-        (*r.pick(&[7u32, 7, 8, 8, 9, 10, 13]), "writer-tiny-max")
+    let big = size > 0;
+    let (max, bucket): (u32, &'static str) = match size {
+        2 => (*r.pick(&[1018u32, 1018, 1019, 1020]), "writer-min-pdu"),
+        // capacity 255..257: the PDU and PDV length fields cross a byte boundary
+        1 => (*r.pick(&[261u32, 262, 263]), "writer-mid-max"),
+        _ => (*r.pick(&[7u32, 7, 8, 8, 9, 10, 13]), "writer-tiny-max"),
     };
     let cap = (max - 6) as usize;
     let len = if r.chance(1, 6) { r.below((3 * cap + 3) as u64) as usize } else { boundary_len(r, cap, 3) };
@@ -333,7 +334,7 @@ fn gen_writer(r: &mut Rng, big: bool) -> (WCase, &'static str) {
     if asyn && r.chance(1, 12) && !ops.is_empty() {
         let i = r.below(ops.len() as u64) as usize;
         if let Op::Write(ch) = ops[i].clone() { ops[i] = Op::Cancel(ch, r.range(1, 2) as usize); bucket = "writer-cancel"; }
-    } else if faults { bucket = if big { "writer-min-pdu-faults" } else { "writer-tiny-max-faults" }; }
+    } else if faults { bucket = if big { "writer-big-faults" } else { "writer-tiny-max-faults" }; }
     (WCase { asyn, ctx, max, ops, sched, finish: !r.chance(1, 8) }, bucket)
 }
 
@@ -360,7 +361,7 @@ fn gen_reader(r: &mut Rng) -> Case {
     let kind = r.below(10);
     if kind < 6 {
         // well-formed message from the real writer + following bytes
-        let (wmax, rmax) = if r.chance(2, 3) { (*r.pick(&[7u32, 8, 9, 13, 30]), 1018) } else { (*r.pick(&[1018u32, 1019, 1020]), *r.pick(&[1018u32, 1020, 16378])) };
+        let (wmax, rmax) = if r.chance(19, 20) { (*r.pick(&[7u32, 8, 9, 13, 30]), *r.pick(&[1018u32, 1018, 16378, 4294967288])) } else { (*r.pick(&[262u32, 1018, 1019, 1020]), *r.pick(&[1018u32, 1020, 16378])) };
         let cap = (wmax - 6) as usize;
         let len = if wmax > 100 { boundary_len(r, cap, 2) } else { boundary_len(r, cap, 6).min(40) };
         let payload = rand_bytes(r, len);
@@ -411,7 +412,7 @@ fn gen_reader(r: &mut Rng) -> Case {
 fn reader_case_with_pre(c: &RCase, payload: &[u8], following: &[u8]) -> Case {
     // the leftover the oracle expects is relative to c.stream (bytes not yet received) plus the read buffer
     // reader_case computes rest = left ++ stream[pos..], which is exactly "what follows the message"
-    reader_case(c, Some((payload, following)), if c.max > 1020 { "reader-wellformed-bigmax" } else { "reader-wellformed" })
+    reader_case(c, Some((payload, following)), if c.stream.len() + c.pre.len() > 200 { "reader-wellformed-big" } else { "reader-wellformed" })
 }
 
 /// Exhaustive sweep evaluated on the implementation only (oracle), aggregated into one case per (max, asyn).
@@ -510,9 +511,10 @@ pub fn cases(ctx: &Ctx) -> Vec<Case> {
         out.push(sweep(true, max, if thorough { 6 } else { 4 }, if thorough { 6 } else { 4 }));
     }
     while out.len() < ctx.n {
-        let k = r.below(20);
-        if k < 11 { let (c, b) = gen_writer(&mut r, false); out.push(writer_case(&c, b)); }
-        else if k < 13 { let (c, b) = gen_writer(&mut r, true); out.push(writer_case(&c, b)); }
+        let k = r.below(200);
+        if k < 116 { let (c, b) = gen_writer(&mut r, 0); out.push(writer_case(&c, b)); }
+        else if k < 122 { let (c, b) = gen_writer(&mut r, 1); out.push(writer_case(&c, b)); }
+        else if k < 125 { let (c, b) = gen_writer(&mut r, 2); out.push(writer_case(&c, b)); }
         else { out.push(gen_reader(&mut r)); }
     }
     out
